@@ -22,9 +22,23 @@ def main():
                 shutil.copyfile(src, dst)
             res = {"results": [], "error": None}
             try:
-                linker = LinearIR.Linker()
-                for name in rd["modules"]:
-                    linker.AddModule(LinearIR.FilesystemModuleLoader().Load(name))
+                if job.get("memory_loader"):
+                    # one MemoryModuleLoader for all rounds: it hands out the same Module objects link after link
+                    if "mem" not in out:
+                        out["mem"] = True
+                        mem = LinearIR.MemoryModuleLoader()
+                        roots_cache = {}
+                        for imp, path in job["memory_loader"].items():
+                            mem.AddModule(imp, LinearIR.FilesystemModuleLoader().Load(path))
+                    linker = LinearIR.Linker(loader=mem)
+                    for name in rd["modules"]:
+                        if name not in roots_cache:
+                            roots_cache[name] = LinearIR.FilesystemModuleLoader().Load(name)
+                        linker.AddModule(roots_cache[name])
+                else:
+                    linker = LinearIR.Linker()
+                    for name in rd["modules"]:
+                        linker.AddModule(LinearIR.FilesystemModuleLoader().Load(name))
                 program = linker.Link()
                 for fname, args, gl in rd["calls"]:
                     vm = VM.VirtualMachine(program)
